@@ -185,3 +185,43 @@ def strings(idx: int, entry: int) -> bool:
             return True
         return xs.fail(f"is_valid_expression({text!r}) = {res!r} for a malformed expression, expected (False, message)", idx=idx, entry=entry)
     return True
+
+
+# ---------------------------------------------------------------------------------------------------------------------
+# what was validated before must not matter: a well-formed expression and a malformed one that differs only by whitespace
+# INSIDE a token (whitespace is insignificant only between tokens)
+# ---------------------------------------------------------------------------------------------------------------------
+PAIRS = (
+    ("Muss [12] U [3]", "Muss [1 2] U [3]"),
+    ("X [UB1] U [7]", "X [U B1] U [7]"),
+    ("Muss [12] U [3]", "Mu ss [12] U [3]"),
+    ("Muss [3P1..2] O [4]", "Muss [3P1. .2] O [4]"),
+    ("Kann [3P] Muss [1]", "Kann [3 P] Muss [1]"),
+)
+
+
+def history_pairs(idx: int, malformed_first: bool) -> bool:
+    """
+    pre: 0 <= idx < len(PAIRS)
+    post: _
+    """
+    idx = xs.pick(idx, 0, len(PAIRS))
+    good, bad = PAIRS[idx]
+    with xs.nt():
+        env.install_parser_proxies()
+        env.configure([valid_glue._Rc(0), valid_glue._Fc(0), valid_glue._Hints(), env.YResolver({}, [], env.Log())])
+    order = (bad, good) if malformed_first else (good, bad)
+    outs = []
+    for text in order:
+        if "P" in text and text is good:
+            outs.append(_outcome(lambda t=text: detloop.run(parse_expression_including_unresolved_subexpressions(t))))
+        else:
+            outs.append(_outcome(lambda t=text: detloop.run(is_valid_expression(t, valid_glue.CER.set))))
+    xs.reached()
+    res = dict(zip(order, outs))
+    g, b = res[good], res[bad]
+    ok_good = g == "tree" or (isinstance(g, tuple) and g[0] == "tuple" and g[1][0] is True)
+    ok_bad = isinstance(b, tuple) and b[0] == "tuple" and b[1][0] is False and isinstance(b[1][1], str)
+    if not ok_good or not ok_bad:
+        return xs.fail(f"validated in the order {order}: well-formed '{good}' -> {g}; malformed '{bad}' (whitespace inside a token) -> {b}, expected (False, message)", idx=idx, malformed_first=malformed_first)
+    return True
